@@ -45,6 +45,7 @@ type Evidence struct {
 	Violations int
 	wall       float64
 	workerS    float64
+	slowest    float64
 	seedsUsed  []uint64
 }
 
@@ -56,6 +57,9 @@ func newEvidence(tier string, seed uint64, b *Build) *Evidence {
 func (e *Evidence) addBatch(r *BatchResult) {
 	e.Batches++
 	e.workerS += r.WallS
+	if r.WallS > e.slowest {
+		e.slowest = r.WallS
+	}
 	if len(e.seedsUsed) < 6 {
 		e.seedsUsed = append(e.seedsUsed, r.Batch.Seed)
 	}
@@ -200,6 +204,7 @@ func (e *Evidence) write(path string) error {
 			"blocking_sync_in_tree":              e.build.Desc.BlockingSync,
 			"non_sentinel_package_vars":          e.build.Desc.PkgVars,
 			"worker_cpu_s":                       e.workerS,
+			"slowest_batch_s":                    e.slowest,
 		},
 		"assumptions": []string{
 			"sampling, not enumeration: a clean batch is evidence, not proof",
